@@ -16,6 +16,11 @@ PROP = "C05"
 OUTSIDE = {"SYC"}
 
 
+# placements (register size, qubits) at which dagger() of a placed gate is traced and compared with
+# the relabelled dagger() of the class template: descending and non-adjacent
+PLACEMENTS = {1: [(2, [1])], 2: [(3, [2, 0])], 3: [(3, [1, 2, 0])]}
+
+
 def fresh(info, qubits, params):
     return info.make(qubits, params)
 
@@ -91,6 +96,19 @@ def trace_obligations(ctx):
                 ref = fresh(info, [sigma[q] for q in base_q], P0)
                 tab.ob_product(f"C05_onq_{name}", k, n, [qgates.sgate_of(r)], [qgates.sgate_of(ref)], gate=name)
             attempt("onq", e)
+
+            # (f) dagger() of the gate PLACED on other qubits (descending, non-adjacent) is the class
+            # template's dagger() moved there: left = traced dagger() of the placed gate, right = the
+            # matrix traced from the dagger() of the TEMPLATE (qubits 0..k-1) on the relabelled qubits.
+            # This is the modelling assumption of C05_invert_identity, decided for these placements.
+            for idx, (n_, pq) in enumerate(PLACEMENTS.get(info.nq, [])):
+                def f(n_=n_, pq=pq, idx=idx):
+                    d = fresh(info, pq, P0).dagger()
+                    trees, tq, tc, _ = qgates.sgate_of(fresh(info, base_q, P0).dagger())
+                    sigma = dict(zip(base_q, pq))
+                    tab.ob_product(f"C05_dagger_at{idx}_{name}", k, n_, [qgates.sgate_of(d)],
+                                   [(trees, [sigma[q] for q in tq], [sigma[q] for q in tc], False)], gate=name)
+                attempt(f"dagger_at{idx}", f)
 
             # (d) current parameter values after an update
             if k:
@@ -236,6 +254,19 @@ def gate_search(ctx, raised):
                              observed=str(np.round(got, 6).tolist()), broken=[f"C05_{label}_{name}"])
 
             args0 = f"*{base_q}, *{v0}"
+            # dagger() of the gate placed on random (any order, non-adjacent) qubits of a larger register
+            npl = n + 2
+            pq = ctx.rng.sample(range(npl), n)
+            try:
+                Upl = qgates.gate_full_matrix(info.make(pq, v0), npl)
+                Dpl = qgates.gate_full_matrix(info.make(pq, v0).dagger(), npl)
+                if not np.allclose(Dpl, Upl.conj().T, atol=1e-9):
+                    ctx.fail(f"dagger_placed:{name}", f"dagger() of gates.{name} on qubits {pq} with parameters {v0} is not the adjoint",
+                             pre + helper + f"g = gates.{name}(*{pq}, *{v0})\nassert np.allclose(full(g.dagger(), {npl}), full(g, {npl}).conj().T, atol=1e-9)\n",
+                             expected=str(np.round(Upl.conj().T, 6).tolist())[:400], observed=str(np.round(Dpl, 6).tolist())[:400],
+                             broken=[f"C05_dagger_at{i}_{name}" for i in range(len(PLACEMENTS.get(n, [])))])
+            except Exception:
+                pass  # raising constructors / dagger() are reported by the checks below
             chk("dagger", lambda: info.make(base_q, v0).dagger(), U.conj().T, n,
                 f"g = gates.{name}({args0}); d = g.dagger()\nassert np.allclose(full(d, {n}), full(g, {n}).conj().T, atol=1e-9)")
             # the gate followed by its dagger() is the identity (the per-class fact behind
@@ -561,4 +592,8 @@ def run(ctx):
     fused_search(ctx)
     from props import basis_meas
     basis_meas.run(ctx, PROP, ['copy', 'deepcopy', 'deepcopy-twice', 'on_qubits-identity', 'on_qubits-shifted', 'add-empty', 'invert-invert', 'deepcopy-invert-invert'])
+    # circuit-level glue (invert / copy / + / on_qubits / the M branch of add): entry-list model
+    # QV/Model/CircuitQueue.lean compared exactly with the real methods + executable SPEC search
+    from props import C05_queue
+    C05_queue.run(ctx)
     ctx.notes.append("per class: symbolic obligations (all parameter values) for dagger, dagger∘controlled_by, controlled_by(1,2), on_qubits, and the same after a parameter update; numeric search on the real methods incl. 3 controls and random relabellings; random circuits for invert/copy/+/on_qubits")
